@@ -361,6 +361,22 @@ theorem after_shutdown_no_answer (s : Server) (ops : List Op) :
   refine ⟨?_, (run_down _ hd ops).2⟩
   cases h : s.up <;> simp [step, h]
 
+/-- **burst_independent**: requests issued together and served by the io loop one handler at a
+    time, in whatever order: the server is unchanged and each request gets the response and the
+    handler invocation it would get alone. -/
+theorem burst_independent (s : Server) (reqs : List (Method × Path × Params)) :
+    (run s (reqs.map fun r => .req r.1 r.2.1 r.2.2)).1 = s ∧
+    (run s (reqs.map fun r => .req r.1 r.2.1 r.2.2)).2.1 =
+      reqs.map (fun r => .resp (request s r.1 r.2.1 r.2.2).1) ∧
+    (run s (reqs.map fun r => .req r.1 r.2.1 r.2.2)).2.2 =
+      reqs.flatMap (fun r => (request s r.1 r.2.1 r.2.2).2) := by
+  induction reqs with
+  | nil => simp [run]
+  | cons r t ih =>
+    obtain ⟨i1, i2, i3⟩ := ih
+    simp only [List.map_cons, run, step, List.flatMap_cons]
+    exact ⟨i1, by rw [i2], by rw [i3]⟩
+
 /-! ### non-vacuity and the late-capture variant -/
 
 def f1 : Fn := ⟨1, 1, fun _ => .ret "one"⟩
